@@ -182,6 +182,17 @@ class Engine:
             self.gw = cls(self.t, **kw)
         self._wrap()
 
+    def _injected(self, who):
+        """User callbacks can raise anything: with and without arguments, built-in and custom classes."""
+        class Custom(Exception):
+            pass
+
+        self._inj_n = getattr(self, "_inj_n", 0) + 1
+        kinds = [lambda: RuntimeError(f"{who} callback raises (injected)"), lambda: ConnectionError(), lambda: KeyError(),
+                 lambda: OSError(5, "injected"), lambda: Custom(), lambda: ValueError("x", "y"), lambda: TimeoutError(),
+                 lambda: UnicodeDecodeError("utf-8", b"\xff", 0, 1, "injected")]
+        return kinds[self._inj_n % len(kinds)]()
+
     # -- boundary recorders -------------------------------------------------
     def _cb(self, msg):
         self.cbs.append(
@@ -190,17 +201,17 @@ class Engine:
              projection(self.gw.sensors))
         )
         if self.cb_raise:
-            raise RuntimeError("callback raises (injected)")
+            raise self._injected("callback")
 
     def _pub(self, topic, payload, qos, retain):
         self.pubs.append((self.step, topic, payload, qos, retain))
         if self.pub_raise:
-            raise RuntimeError("pub callback raises (injected)")
+            raise self._injected("publish")
 
     def _sub(self, topic, callback, qos):
         self.subs.append((self.step, topic))
         if self.sub_raise:
-            raise RuntimeError("sub callback raises (injected)")
+            raise self._injected("subscribe")
 
     def _hook(self, fn, *args):
         """Monitor hooks must never change what they observe: their errors are kept aside."""
